@@ -65,8 +65,10 @@ impl ExtendedPrivateKey {
     pub fn from_string_impl(xprv_string: &str) -> Result<Self, BSVErrors> {
         let mut cursor = Cursor::new(bs58::decode(xprv_string).into_vec()?);
 
-        // Skip the first 4 bytes "xprv"
-        cursor.set_position(4);
+        // The first 4 bytes are the "xprv" version
+        if cursor.read_u32::<BigEndian>()? != XPRIV_VERSION_BYTE {
+            return Err(BSVErrors::GenericError("Extended private key has the wrong version bytes".into()));
+        }
 
         let depth = cursor.read_u8()?;
         let mut parent_fingerprint = vec![0; 4];
@@ -76,8 +78,10 @@ impl ExtendedPrivateKey {
         let mut chain_code = vec![0; 32];
         cursor.read_exact(&mut chain_code)?;
 
-        // Skip appended 0 byte on private key
-        cursor.set_position(cursor.position() + 1);
+        // The private key is prefixed with a 0 byte
+        if cursor.read_u8()? != 0 {
+            return Err(BSVErrors::GenericError("Extended private key is missing the 0 byte before the key".into()));
+        }
 
         let mut private_key_bytes = vec![0; 32];
         cursor.read_exact(&mut private_key_bytes)?;
